@@ -481,6 +481,21 @@ func runProc(rc *runCtx) (h *history, stuck string) {
 			wg.Wait()
 			closeIt()
 		}
+		if p.LateStart {
+			// Start after Close has returned: the queue is closed, nothing may run (also pushes made
+			// after Close are tried); a second Close stops whatever the late Start has begun
+			lg := &producerLog{}
+			for k := 0; k < 2; k++ {
+				id := 80000 + k
+				s := now()
+				ok := push(id)
+				lg.ops = append(lg.ops, op{C: p.Producers + 1, K: "push", ID: id, OK: ok, S: s, E: now()})
+			}
+			logs = append(logs, lg)
+			proc.Start()
+			spin(6, int(mix(p.YieldSeed^77)%200))
+			proc.Close()
+		}
 
 	default: // drain | close | error
 		var release func()
@@ -830,6 +845,7 @@ func genParams(r *rand.Rand, index int) params {
 			p.Scenario = "close"
 		}
 		p.StartMode = r.Intn(2)
+		p.LateStart = p.Scenario == "nostart" && r.Intn(2) == 0
 	}
 	total := 4 + r.Intn(30) // short history: <= ~60 operations including dequeues and close
 	if r.Intn(12) == 0 {
